@@ -61,9 +61,9 @@ TEXT = {
  'C08': dict(engine='verus', ref='4-C08', technique='Verus: frame clauses (only the loop writes the state cell) + precondition of do_notify: the state cell already holds the state being announced',
    level='proof that the only writer of the state cell is the reducer loop, that it writes exactly the chain result once per action before any notification of that action, and that get_state returns the cell content',
    note='monotonic reads across threads assume Mutex linearizability (A1)'),
- 'C09': dict(engine='verus+kani', ref='4-C09', technique='Verus: clear_subscribers loop invariant, lifted unsubscribe closure and retain predicate over the assumed Vec::retain contract, idempotence lemma; Kani (bounded, 1 subscriber) cross-check',
-   level='unbounded proof that shutdown releases every registered subscriber exactly once and empties the list, that registration appends, and that unsubscribe removes exactly the target (others stay, in order), releases it once and is idempotent; a 1-subscriber Kani harness cross-checks the assumed Vec::retain contract on the real code (bounded, not counted)',
-   note='Vec::retain is used through its documented contract (assumed); a notification in flight after unsubscribe() returned is a schedule property not expressible in these contracts (DESIGN.md section 5, not decided)'),
+ 'C09': dict(engine='verus+kani', ref='4-C09', technique='Verus: clear_subscribers loop invariant, lifted unsubscribe closure and retain predicate over the assumed Vec::retain contract, idempotence lemma; Kani (bounded, 1 subscriber): cross-check of the retain contract, release and notification inside critical sections of the subscribers mutex',
+   level='unbounded proof that shutdown releases every registered subscriber exactly once and empties the list, that registration appends, and that unsubscribe removes exactly the target (others stay, in order), releases it once and is idempotent; 1-subscriber Kani harnesses cross-check the assumed Vec::retain contract on the real code and decide that unsubscribe()/shutdown release and on_notify run under the subscribers lock (bounded, not counted)',
+   note='Vec::retain is used through its documented contract (assumed); known finding F-C09-1: a notification in flight when unsubscribe() returns still reaches the subscriber (Kani O-C09-k-notify-under-lock; DESIGN.md section 5)'),
  'C10': dict(engine='verus', ref='4-C10', technique='Verus: forwarding wrapper, delivery loop invariant, release order, per-subscription channel',
    level='proof that the forwarding wrapper hands exactly one clone per notification to its own channel and can call no user callback, that the delivery loop calls the user subscriber once per received item in order and stops at Exit, that release drops the sender before joining, once; channel created with the caller capacity/policy',
    note='own thread: A5; channel behaviour: C05/C06 obligations on the same send function'),
